@@ -360,8 +360,8 @@ fn ast_hashes(ast: &Ast) -> (u64, u64) {
 
 // ---------------------------------------------------------------------------------------------
 // seeded program generator (well-formedness of the bytecode matters; programs need not terminate)
-// Envelope: no `return`/`break`/`continue` inside list/tuple/string-interpolation expressions or
-// try blocks (documented shapes of F-C05-5/-6).
+// Envelope: no `return`/`break`/`continue` inside list/tuple/string-interpolation expressions
+// (documented shape of F-C05-5).
 // ---------------------------------------------------------------------------------------------
 
 struct Gen {
@@ -378,7 +378,7 @@ struct Scope {
     in_loop: bool,
     in_fn: bool,
     in_gen: bool,
-    /// inside a try block (no break/continue), or inside a builder expression
+    /// inside a builder expression (list / tuple / interpolated string): no return/break/continue (F-C05-5)
     no_jump: bool,
 }
 
@@ -603,7 +603,7 @@ impl Gen {
             }
             13 | 14 => {
                 self.line(ind, "try");
-                let mut b = Scope { no_jump: true, ..sc.clone() };
+                let mut b = sc.clone();
                 self.block(&mut b, ind + 1, d - 1);
                 if self.rng.chance(1, 3) {
                     let e = self.expr(sc, 1);
@@ -805,6 +805,104 @@ fn gen_capture_program(rng: &mut Rng) -> String {
     }
     s.push_str("f0()\n");
     s
+}
+
+/// Loops and try blocks nested up to five deep in every order, with `break` / `continue` (and
+/// `return` in functions) at the innermost position: try depth 0..=3 at the jump, nested loops
+/// inside try, try inside loop inside try, jumps in catch and finally blocks (former F-C05-6).
+fn gen_try_loop_program(rng: &mut Rng) -> String {
+    fn emit(rng: &mut Rng, out: &mut String, layers: &[u8], ind: usize, have_loop: bool, in_fn: bool) {
+        let pad = "  ".repeat(ind);
+        if layers.is_empty() {
+            out.push_str(&format!("{}n += 1\n", pad));
+            if have_loop {
+                match rng.below(5) {
+                    0 => out.push_str(&format!("{}if n > 3 then break\n", pad)),
+                    1 => out.push_str(&format!("{}if n > 3 then continue\n", pad)),
+                    2 => out.push_str(&format!("{}if n > 5\n{}  break\n{}else if n > 2\n{}  continue\n", pad, pad, pad, pad)),
+                    3 => out.push_str(&format!("{}break\n", pad)),
+                    _ => out.push_str(&format!("{}continue\n", pad)),
+                }
+            } else if in_fn {
+                out.push_str(&format!("{}if n > 3 then return n\n", pad));
+            }
+            return;
+        }
+        let rest = &layers[1..];
+        match layers[0] {
+            0 => {
+                out.push_str(&format!("{}for i{} in 0..4\n", pad, ind));
+                emit(rng, out, rest, ind + 1, true, in_fn);
+            }
+            1 => {
+                out.push_str(&format!("{}while n < 20\n", pad));
+                emit(rng, out, rest, ind + 1, true, in_fn);
+            }
+            2 => {
+                out.push_str(&format!("{}until n > 20\n", pad));
+                emit(rng, out, rest, ind + 1, true, in_fn);
+            }
+            3 => {
+                out.push_str(&format!("{}loop\n", pad));
+                emit(rng, out, rest, ind + 1, true, in_fn);
+                out.push_str(&format!("{}  if n > 30 then break\n", pad));
+            }
+            4 => {
+                // loop used as a value: `break` carries a value
+                out.push_str(&format!("{}v{} = loop\n", pad, ind));
+                emit(rng, out, rest, ind + 1, false, in_fn);
+                out.push_str(&format!("{}  if n > 2 then break n\n", pad));
+            }
+            k => {
+                // 5: jump in the try block, 6: in the catch block, 7: in the finally block
+                let simple = format!("{}  n += 2\n", pad);
+                out.push_str(&format!("{}try\n", pad));
+                if k == 5 {
+                    emit(rng, out, rest, ind + 1, have_loop, in_fn);
+                    if rng.chance(1, 3) {
+                        out.push_str(&format!("{}  throw 'x'\n", pad));
+                    }
+                } else {
+                    out.push_str(&simple);
+                    out.push_str(&format!("{}  if n > 1 then throw 'x'\n", pad));
+                }
+                if rng.chance(1, 4) {
+                    out.push_str(&format!("{}catch e{}: Number\n{}  n += 3\n", pad, ind, pad));
+                }
+                out.push_str(&format!("{}catch e{}\n", pad, ind));
+                if k == 6 {
+                    emit(rng, out, rest, ind + 1, have_loop, in_fn);
+                } else {
+                    out.push_str(&simple);
+                }
+                if k == 7 || rng.chance(1, 4) {
+                    out.push_str(&format!("{}finally\n", pad));
+                    if k == 7 {
+                        emit(rng, out, rest, ind + 1, have_loop, in_fn);
+                    } else {
+                        out.push_str(&simple);
+                    }
+                }
+            }
+        }
+        out.push_str(&format!("{}n += 1\n", pad));
+    }
+    let depth = 2 + rng.below(4);
+    let mut layers: Vec<u8> = (0..depth).map(|_| if rng.chance(1, 2) { rng.below(5) as u8 } else { 5 + rng.below(3) as u8 }).collect();
+    if !layers.iter().any(|l| *l <= 3) {
+        let k = rng.below(layers.len());
+        layers[k] = rng.below(4) as u8;
+    }
+    let mut out = String::from("n = 0\n");
+    if rng.chance(1, 3) {
+        out.push_str("f = |n|\n");
+        emit(rng, &mut out, &layers, 1, false, true);
+        out.push_str("  n\nf(0)\n");
+    } else {
+        emit(rng, &mut out, &layers, 0, false, false);
+        out.push_str("n\n");
+    }
+    out
 }
 
 fn gen_program(rng: &mut Rng) -> String {
@@ -1516,8 +1614,6 @@ impl Ctx {
         let unbalanced = name == "unbalanced-builders-or-try";
         let id = if unbalanced && p.shape.jump_in_builder {
             Some("F-C05-5")
-        } else if unbalanced && p.shape.jump_in_try {
-            Some("F-C05-6")
         } else {
             None
         };
@@ -1678,7 +1774,7 @@ fn real_main() -> i32 {
     install_panic_hook();
     let args = Args::parse();
     let mut rep = Report::new("C05", &args);
-    rep.rule = "cases = programs handed to the real compiler (repository scripts, documentation examples, their single-token delete/duplicate/swap neighbours, seeded generated programs, capture-heavy programs (also compiled in two fresh processes each), size-scaled programs at the u8/u16 limits) plus register-allocator histories; every compiled chunk goes through wfChunk and the decoder correspondence, and is compiled again in this process and in a child process; distinct = distinct source texts / histories; non-trivial = chunk with at least 4 instructions, or a history with at least 3 operations".into();
+    rep.rule = "cases = programs handed to the real compiler (repository scripts, documentation examples, their single-token delete/duplicate/swap neighbours, seeded generated programs, loop x try-block nestings with break/continue/return, capture-heavy programs (also compiled in two fresh processes each), size-scaled programs at the u8/u16 limits) plus register-allocator histories; every compiled chunk goes through wfChunk and the decoder correspondence, and is compiled again in this process and in a child process; distinct = distinct source texts / histories; non-trivial = chunk with at least 4 instructions, or a history with at least 3 operations".into();
     let open: Vec<String> = rep.known_open().iter().filter_map(|e| e.get("id").and_then(|x| x.as_str()).map(|s| s.to_string())).collect();
     let drv = Driver::spawn(&args.driver);
     let worker = Worker::spawn(&["--worker".to_string()]);
@@ -1693,7 +1789,7 @@ fn real_main() -> i32 {
         known_counts: Default::default(),
         programs: 0,
         disagreements_checked: 0,
-        run_budget: if thorough { 12000 } else { 400 },
+        run_budget: if thorough { 24000 } else { 1000 },
         sampled: vec![],
     };
     let mut rng = Rng::new(args.seed);
@@ -1749,14 +1845,23 @@ fn real_main() -> i32 {
 
     // 2. generated programs
     let n_gen = if thorough { 80000 } else { 1500 };
+    let n_run_gen = if thorough { 12000 } else { 400 };
     for i in 0..n_gen {
         let src = gen_program(&mut rng);
-        cx.submit(&format!("gen:{}", i), &src, true);
+        cx.submit(&format!("gen:{}", i), &src, i < n_run_gen);
     }
     cx.flush();
 
     cx.rep.note(format!("phase generated done at {:.1}s", t0.elapsed().as_secs_f64()));
     let _ = t_phase;
+    // 2a. loops x try blocks with break / continue / return at every depth (former F-C05-6)
+    let n_tl = if thorough { 12000 } else { 600 };
+    for i in 0..n_tl {
+        let src = gen_try_loop_program(&mut rng);
+        cx.submit(&format!("tryloop:{}", i), &src, true);
+    }
+    cx.flush();
+
     // 2b. capture-heavy programs: additionally compiled in two fresh processes each
     let n_cap = if thorough { 1500 } else { 120 };
     for i in 0..n_cap {
